@@ -1,6 +1,7 @@
 import Umya.Driver.Proto
 import Umya.Model.NumFmt
 import Umya.Model.Date
+import Umya.Model.NumFmtDispatch
 import Umya.Model.Gen.Tables
 namespace Umya.Driver.C19
 open Umya.NumFmt Umya.Proto
@@ -35,8 +36,36 @@ def builtinDateCode (n : Nat) : Option (List Char) :=
 def dtStr (t : Umya.Date.DateTime) : String :=
   s!"{t.year} {t.month} {t.day} {t.hour} {t.minute} {t.second}"
 
+/-- the dispatcher model's answer: `ok <hex text>` (text computed), `ok ~` (a text the model does not compute),
+    `panic`, `unmodelled`; the branch / reason travels as information after ` ## ` -/
+def outDisp : Umya.NumFmtDispatch.Outcome → String
+  | .ok b (some t) => s!"ok {encodeStr t} ## {b.name}"
+  | .ok b none => s!"ok ~ ## {b.name}"
+  | .panic w => s!"panic ## {w}"
+  | .unmodelled w => s!"unmodelled ## {w}"
+
+/-- what the code computes with the double: the double and its absolute value from the bit pattern (Lean's
+    native `Float`), the two texts from the harness (`f64::to_string` is not available here) -/
+def dispEnv (bits : Nat) (rem hours hoursAbs : List Char) : Umya.NumFmtDispatch.Env Float :=
+  let x := Float.ofBits (UInt64.ofNat bits)
+  { val := x, absVal := Float.abs x, rem := rem, hours := hours, hoursAbs := hoursAbs }
+
 def handle (args : List String) : String :=
   match args with
+  | ["disp", n, b, v, r, h, ha] =>
+    -- preconditions (checked by the harness): `v` is the Display text of the finite double with bit pattern `b`,
+    -- `r` of `abs % 1`, `h` of `* 24`, `ha` of `abs * 24`
+    match n.toNat?, b.toNat?, decodeStr v, decodeStr r, decodeStr h, decodeStr ha with
+    | some n, some b, some v, some r, some h, some ha =>
+      (match Umya.Gen.builtin_format_codes.find? (fun p => p.1 == n) with
+       | some p => outDisp (Umya.NumFmtDispatch.dispatch p.2.toList v (dispEnv b r h ha))
+       | none => "noid")
+    | _, _, _, _, _, _ => "bad-op"
+  | ["dispc", c, b, v, r, h, ha] =>
+    match decodeStr c, b.toNat?, decodeStr v, decodeStr r, decodeStr h, decodeStr ha with
+    | some c, some b, some v, some r, some h, some ha =>
+      outDisp (Umya.NumFmtDispatch.dispatch c v (dispEnv b r h ha))
+    | _, _, _, _, _, _ => "bad-op"
   | ["fmt", v, p] =>
     -- precondition (checked by the harness): `v` is a fixed point of parse::<f64> → to_string
     match decodeStr v, decodeStr p with
